@@ -465,6 +465,7 @@ func (r *rwRT) ruleImport() {
 	realName := r.w.Pkgs[pathSeq].Types.Name()
 	for _, present := range []string{"", "imported", "default"} {
 		seqAns = present
+		r.setFileImports(in, present) // the same scenario for code that scans the import declarations itself
 		outs := in.Run(nil, fn, []AV{Sym{Name: "r", NN: true}, Sym{Name: "f", NN: true}, Sym{Name: "printer", NN: true}}, nil)
 		r.account(in)
 		construct := "seq import: " + map[string]string{"": "absent in the file", "imported": "already imported (under any name)", "default": "already imported without a name of its own"}[present]
